@@ -488,6 +488,7 @@ func c04GadgetProductTies(c *Ctx, ps *c04PS, eval *rlwe.Evaluator, cfg c04KeyCfg
 	})
 	c04EmitKs(c, ps, cfg, "gp", ps.ksLine("gp", cfg, isNTT, 0, 0, evk, in), res)
 	c.Count("ks:gp")
+	c04LazyWordTie(c, ps, cfg, evk, ct)
 	gargs := fmt.Sprintf("%s %d %d %d lvl=%d ntt=%s", ps.hdr(), cfg.lq, cfg.lp, cfg.w, lvl, c04B2s(isNTT))
 	c04Recycled(c, ps, c04RecycleSpec{op: "gp", args: gargs, lvl: lvl, fresh: res, degs: []int{1}, noResize: true,
 		run: func(o *rlwe.Ciphertext) error { eval.GadgetProduct(lvl, ct.Value[1], &evk.GadgetCiphertext, o); return nil }}, isNTT)
